@@ -1000,7 +1000,9 @@ class Messenger(Connection):
         self.send_ready()
 
         self._keepalive_reset()
-        self._idle_reset()
+        if not (self._in_term and isinstance(pkt.payload, messages.Keepalive)):
+            # own KEEPALIVEs do not keep a terminating session open
+            self._idle_reset()
 
     def send_reject(self, reason, pkt=None):
         ''' Send a message rejection response.
